@@ -7,9 +7,11 @@ import (
 	"fmt"
 	"strconv"
 	"sync"
+	"sync/atomic"
 	"time"
 
 	"github.com/boz/kcache"
+	metav1 "k8s.io/apimachinery/pkg/apis/meta/v1"
 
 	"verifharness/kit"
 )
@@ -674,6 +676,197 @@ func e9CtlCase(seed uint64, n int) Case {
 	}}
 }
 
+
+// e9StopRun: a controller (static server content, first list takes 1 s of
+// virtual time) with subscribers of every kind created while that list is in
+// flight; the controller is stopped (context cancellation or Close) from INSIDE
+// one of the library's own steps around "first list applied": logger point
+// firePoint or the fireCtx-th consultation of the context.  Stopping is
+// legitimate at any instant, and then a node may never become ready or may
+// answer reads with ErrNotRunning; what must never happen is a node that
+// reports Ready() and answers a read (nil error) with something else than its
+// synced content, or a controller that is ready although its filter never saw
+// the listed objects.  Returns (logger points, ctx consultations).
+func e9StopRun(r *Res, seed uint64, n int, mech string, firePoint, fireCtx int) (int, int) {
+	rng := kit.NewRng(kit.Mix(seed, uint64(n)+990))
+	core := kit.NewCore(&kit.Plan{Seed: rng.U64(), PYield: 120, PSleep: 30, MaxSleep: 80 * time.Microsecond})
+	srv := kit.NewPodServer(core)
+	u := smallUniverse()
+	for i := 0; i < 6; i++ {
+		u.mutate(rng, srv)
+	}
+	srv.ListPlan = func(i int) kit.ListFault {
+		if i == 1 {
+			return kit.ListFault{Latency: time.Second}
+		}
+		return kit.ListFault{}
+	}
+	fam := filterFamily()
+	inner := fam[[]int{0, 0, 2, 5}[rng.Intn(4)]]
+	var seenMu sync.Mutex
+	seen := map[string]bool{}
+	F := kit.TFN("recording("+inner.String()+")", func(o metav1.Object) bool {
+		seenMu.Lock()
+		seen[kit.Key(o)+"@"+o.GetResourceVersion()] = true
+		seenMu.Unlock()
+		return inner.Eval(o)
+	})
+	tctx := kit.NewTrigCtx()
+	g, err := newCtlRigCtx(core, srv, time.Minute, F, tctx, tctx.Cancel)
+	if err != nil {
+		r.Inc(err.Error())
+		return 0, 0
+	}
+	g.F = inner
+	t := newTree(g.ctl)
+	t.root.filter = inner
+	for _, k := range []string{"sub", "subwf", "subff", "clonewf", "cloneff", "clone", "monitor"} {
+		nd, err := t.addChild(t.root, k, fam[2], true)
+		if err != nil {
+			r.V("C08", "tree-build-error", "%v", err)
+			return 0, 0
+		}
+		if nd.isController() {
+			for _, k2 := range []string{"subwf", "sub", "monitor"} {
+				if _, err := t.addChild(nd, k2, fam[5], true); err != nil {
+					r.V("C08", "tree-build-error", "%v", err)
+					return 0, 0
+				}
+			}
+		}
+	}
+	for _, nd := range t.nodes {
+		if nd.deferred {
+			nd.refilt(fam[3])
+			nd.filter, nd.supplied = fam[3], true
+		}
+	}
+	watchers := map[*node]*readyWatch{}
+	for _, nd := range t.nodes {
+		if nd.cc != nil {
+			watchers[nd] = watchReady(nd.cc)
+		}
+	}
+	defer func() {
+		for _, w := range watchers {
+			close(w.stop)
+			<-w.done
+		}
+	}()
+	var fired atomic.Bool
+	fire := func() {
+		if !fired.CompareAndSwap(false, true) {
+			return
+		}
+		if mech == "close" {
+			go g.ctl.Close()
+		} else {
+			tctx.Cancel()
+		}
+	}
+	base, cbase := core.Seq(), tctx.Calls()
+	if firePoint > 0 {
+		core.TriggerAt(base+firePoint, fire)
+	}
+	if fireCtx > 0 {
+		tctx.CancelAtCall(cbase + fireCtx)
+	}
+	// run until ready (or stopped), then a little longer
+	select {
+	case <-g.ctl.Ready():
+	case <-g.ctl.Done():
+	case <-time.After(3 * time.Second):
+	}
+	time.Sleep(2 * time.Millisecond)
+	core.Barrier()
+	if firePoint <= 0 && fireCtx <= 0 {
+		np, nc := core.Seq()-base, tctx.Calls()-cbase
+		g.shutdown(r, "C12")
+		return np, nc
+	}
+	where := "at the end of the scenario"
+	switch {
+	case tctx.Fired():
+		where = fmt.Sprintf("inside the library's consultation #%d of its context (%s)", fireCtx, tctx.FiredIn())
+	case fired.Load():
+		where = fmt.Sprintf("from inside logger point #%d (%s)", firePoint, core.TriggerPoint())
+	default:
+		r.Add("trigger-point-not-reached", 1)
+		fire()
+	}
+	waitCh(g.ctl.Done(), virtBound)
+	core.Barrier()
+	lists := srv.Lists()
+	objs := srv.Objects() // static
+	// the controller: ready => its filter saw every listed object
+	if isClosed(g.ctl.Ready()) && len(lists) > 0 {
+		seenMu.Lock()
+		missing := []string{}
+		for _, o := range objs {
+			if !seen[kit.Key(o)+"@"+o.GetResourceVersion()] {
+				missing = append(missing, kit.Key(o))
+			}
+		}
+		seenMu.Unlock()
+		r.Add("ready-implies-list-examined-checks", 1)
+		if len(missing) > 0 {
+			r.V("C08", "ready-without-first-list-applied", "controller stopped via %s %s: its Ready() is closed although the listed objects %v were never handed to its filter: the first list was not applied (Error() = %v)", mech, where, missing, g.ctl.Error())
+		}
+	}
+	for nd, w := range watchers {
+		fired, snap, rerr := w.get()
+		if !fired {
+			r.Add("nodes-never-ready", 1)
+			continue
+		}
+		if rerr != nil {
+			r.Add("reads-at-readiness-refused", 1)
+			continue
+		}
+		r.Add("content-at-readiness-checks", 1)
+		want := kit.Snap{}
+		for _, o := range objs {
+			if t.effective(nd, o) {
+				want[kit.Key(o)] = o.GetResourceVersion()
+			}
+		}
+		if !snap.Equal(want) {
+			r.V("C08", "read-at-readiness-not-synced", "controller stopped via %s %s: %s reported Ready() and the read made at that moment returned %v without error; its synced content would be %v (server static, %d objects listed)", mech, where, nd, snap, want, len(objs))
+		}
+	}
+	for _, nd := range t.nodes {
+		if nd.mir != nil && nd.mir.preReady() > 0 {
+			r.V("C08", "event-before-ready", "%s received %d event(s) before its Ready() closed", nd, nd.mir.preReady())
+		}
+	}
+	r.Add("stopped-around-first-list-cases", 1)
+	tctx.Cancel()
+	core.Barrier()
+	return 0, 0
+}
+
+func e9StopCase(seed uint64, n int, mech string, k, K int, ctxTrig bool) Case {
+	kind := "point"
+	if ctxTrig {
+		kind = "ctxcall"
+	}
+	id := fmt.Sprintf("E9/stopped-at-%s/%d/%d/%s/%d-of-%d", kind, seed, n, mech, k, K)
+	return Case{ID: id, Desc: map[string]interface{}{"seed": seed, "n": n, "mechanism": mech, "trigger": kind, "k": k, "K": K}, Bubble: true, Run: func(r *Res) {
+		np, nc := e9StopRun(r, seed, n, mech, 0, 0)
+		if r.Failed() {
+			return
+		}
+		if ctxTrig {
+			if nc > 0 {
+				e9StopRun(r, seed, n, "cancel", 0, 1+k*nc/K)
+			}
+		} else if np > 0 {
+			e9StopRun(r, seed, n, mech, 1+k*np/K, 0)
+		}
+		r.Key(id)
+	}}
+}
+
 func splitKey(k string) (string, string) {
 	for i := 0; i < len(k); i++ {
 		if k[i] == '/' {
@@ -708,6 +901,16 @@ func init() {
 		}
 		for i := 0; i < tierPick(tier, 4, 40); i++ {
 			cases = append(cases, e9StaleCase(seed, i, []string{"subff", "cloneff"}[i%2]))
+		}
+		for i := 0; i < tierPick(tier, 3, 40); i++ {
+			K := tierPick(tier, 24, 48)
+			for k := 0; k < K; k++ {
+				cases = append(cases, e9StopCase(seed, i, []string{"cancel", "close"}[(k+i)%2], k, K, false))
+			}
+			KC := tierPick(tier, 8, 16)
+			for k := 0; k < KC; k++ {
+				cases = append(cases, e9StopCase(seed, i, "cancel", k, KC, true))
+			}
 		}
 		for _, k := range []kit.ListFaultKind{kit.ListErr, kit.ListNonList, kit.ListNonObjects, kit.ListNoAccessor, kit.ListNilNil, kit.ListStatus, kit.ListErrAndList} {
 			for i := 0; i < tierPick(tier, 3, 40); i++ {
